@@ -41,7 +41,7 @@ ASSUMPTIONS = [
     "no faults are injected into the file object: the property promises nothing for "
     "truncated or corrupt archives",
 ]
-PROBES = ["clients_start_before_any_listing", "file_replaced_under_live_reader",
+PROBES = ["extractfile_before_lookup", "clients_start_before_any_listing", "file_replaced_under_live_reader",
           "readline_unterminated_last_line_odd", "readline_unterminated_last_line_even",
           "readline_n_crossing_member_end", "read_after_seek_past_end",
           "alternating_single_byte_reads", "duplicate_name_lookup", "empty_member",
@@ -135,7 +135,7 @@ def generate(seed, run, tier):
         if rq.random() > sticky * 0.8:
             cur = (rq.randrange(narch), rq.randrange(nm),
                    rq.choice(["members", "members", "getmember", "getitem", "iter",
-                              "iter_partial", "iter_partial"]))
+                              "iter_partial", "iter_partial", "extractfile"]))
         k = rq.choice(kinds)
         st = {"a": cur[0], "m": cur[1], "via": cur[2], "op": k}
         if k == "read_n":
@@ -278,6 +278,13 @@ def execute(case):
                 if via in ("getmember", "getitem"):
                     mi = last[names[mi]]
                     h = ar.getmember(names[mi]) if via == "getmember" else ar[names[mi]]
+                elif via == "extractfile":
+                    # documented to return the FIRST member with that name
+                    mi = names.index(names[mi])
+                    h = ar.extractfile(names[mi])
+                    if h is None:
+                        raise KeyError(names[mi])
+                    out.probe("extractfile_before_lookup")
                 elif via == "iter":
                     h = list(ar)[mi]
                 elif via == "iter_partial":
